@@ -247,7 +247,8 @@ fn judge(c: &Case, out: &Outcome, logs: &Logs, rep: &mut Report, gl: &[(f64, f64
                 for k in 0..3 { match run_impl(&Case::Tri { f: fe.clone(), t: [t[k], t[(k + 1) % 3], g], tol, mi }).0 { Outcome::Ok(vv, _) => sum += vv, _ => ok = false } }
                 // far from the origin the centroid is rounded to the coordinate grid and the three pieces no longer tile
                 let far = t.iter().flatten().any(|x| x.abs() > 1048576.0);
-                if ok && !far && (v - sum).abs() > 4.0 * tol.max(0.0) + 4.0 * floor { rep.finding("oracle", &["C09"], "not-additive-under-subdivision", input.clone(), format!("{v:e} vs {sum:e}")); }
+                // (a degenerate triangle is not tiled by the three pieces: two of them cover the same ground)
+                if ok && !far && area2 != 0.0 && (v - sum).abs() > 4.0 * tol.max(0.0) + 4.0 * floor { rep.finding("oracle", &["C09"], "not-additive-under-subdivision", input.clone(), format!("{v:e} vs {sum:e}")); }
             }
         }
     }
